@@ -389,10 +389,19 @@ async def _drive(rig: al.Rig, front: str, vdelay: int, history, soft: list):
             if not ok:
                 raise Hard(pfx + 'express-does-not-send-one-interest',
                            f'express of {SPECS[arg]} wrote {sent.hex()} / added {len(new)} table entries')
-        elif op in ('D', 'XD'):
+        elif op in ('D', 'XD', 'LD'):
+            # LD: the same Data inside a link-layer envelope (64 L (50 |d| d)): processed exactly as the bare packet
+            mop = 'D' if op == 'LD' else op
             for rec in ints:
-                rec['model'].apply((op, arg), t if op == 'D' else _next_timer_ms(loop, t), rec['fullname'], tie=(op == 'XD'))
-            await deliver(wires[arg], f'Data {DATAS[arg][0]}', op == 'XD', op)
+                rec['model'].apply((mop, arg), t if mop == 'D' else _next_timer_ms(loop, t), rec['fullname'], tie=(op == 'XD'))
+            w_ = wires[arg]
+            if op == 'LD':
+                def tl(t_, v):
+                    n = len(v)
+                    ln = bytes([n]) if n < 253 else (b'\xfd' + n.to_bytes(2, 'big'))
+                    return bytes([t_]) + ln + v
+                w_ = tl(0x64, tl(0x50, w_))
+            await deliver(w_, f'Data {DATAS[arg][0]}' + (' in an LpPacket' if op == 'LD' else ''), op == 'XD', mop)
         elif op in ('N', 'XN'):
             tgt = ints[arg]
             reason = NACK_REASONS[arg]
@@ -552,6 +561,10 @@ SEEDS = [
     ('v2', 10, (('E', 1), ('E', 2), ('XD', 1), ('W', None), ('C', 0), ('S', None))),
     # an Interest /a/b/<hash of Data /a/b/c> (no CanBePrefix): the longer Data must not complete it, with and without a
     # CanBePrefix Interest on the same name that the Data does complete
+    ('v2', 0, (('E', 4), ('E', 0), ('LD', 0), ('W', None), ('W', None))),
+    ('v1', 0, (('E', 4), ('E', 0), ('LD', 0), ('W', None), ('W', None))),
+    ('v2', 10, (('E', 4), ('E', 1), ('E', 6), ('LD', 0), ('W', None), ('W', None))),
+    ('v2', 0, (('E', 2), ('LD', 1), ('W', None), ('E', 4), ('LD', 0), ('W', None))),
     ('v2', 0, (('E', 7), ('D', 1), ('W', None), ('W', None))),
     ('v1', 0, (('E', 7), ('D', 1), ('W', None), ('W', None))),
     ('v2', 0, (('E', 7), ('E', 1), ('D', 1), ('W', None), ('W', None))),
